@@ -421,3 +421,53 @@ def steer_panel(tier):
 
 
 PANELS["steer"] = steer_panel
+
+# --------------------------------------------------------------------------
+def optvar_panel(tier):
+    """valid non-default settings of the controller options the specification reads (Construct.cfg):
+    every rule operator of BadsRules.tla is exercised by real runs away from the default values"""
+    sd = _seed()
+    r = S.rnd(("optvar", sd))
+    out = []
+    nsc = 14 if tier == "quick" else 90
+    for j in range(nsc):
+        D = r.choice([1, 2, 2, 3])
+        o = {}
+        o["skip_poll_after_search"] = r.random() < 0.6
+        o["search_n_try"] = r.choice([1, 2, 3, 4])
+        o["search_mesh_expand"] = r.choice([0, 1, 2, 3])
+        o["search_mesh_increment"] = r.choice([1, 2])
+        o["max_poll_grid_number"] = r.choice([0, 0, 1, 2])
+        o["search_size_locked"] = r.random() < 0.6
+        o["search_grid_number"] = r.choice([10, 6, 3])
+        o["search_grid_multiplier"] = r.choice([2, 3])
+        o["accelerate_mesh"] = r.random() < 0.6
+        o["accelerate_mesh_steps"] = r.choice([1, 3, 5])
+        o["complete_poll"] = r.random() < 0.3
+        o["fun_eval_start"] = r.choice([D, 2 * D + 1, 9, 16])
+        o["min_refit_time"] = r.choice([1, 2 * D, 3 * D])
+        o["tol_improvement"] = r.choice([1.0, 0.1, 3.0])
+        o["forcing_exponent"] = r.choice([1.5, 2.0, 1.0])
+        o["sloppy_improvement"] = r.random() < 0.6
+        o["tol_stall_iters"] = r.choice([2, 4, 7])
+        o["tol_fun"] = r.choice([1e-3, 1e-2, 1e-5])
+        o["tol_mesh"] = r.choice([1e-6, 1e-4, 1e-3])
+        o["n_search_iter"] = r.choice([1, 2, 3])
+        o["max_fun_evals"] = r.choice([60, 90, 130])
+        if j % 5 == 4:
+            o["poll_mesh_multiplier"] = r.choice([4.0, 3.0])
+        noisy = (j % 3 == 2)
+        noise = None
+        if noisy:
+            noise = {"mode": r.choice(["declared", "auto", "specified"]), "sigma": r.choice([0.3, 1.0]), "sd_kind": "const"}
+            o["noise_final_samples"] = r.choice([0, 2, 5])
+            o["max_fun_evals"] += 30
+        x0 = [round(r.uniform(-4, 4), 3) for _ in range(D)]
+        geom = S.box_geom(D, x0=x0) if j % 4 else S.box_geom(D, -5, 5, -3, 3, x0=[min(3.0, max(-3.0, v)) for v in x0])
+        mn = None if j % 2 else [round(r.uniform(5.5, 8), 2) * r.choice([-1, 1]) for _ in range(D)]
+        out.append(_sc(f"ov{j}", D, geom, _quad(D, r, cond=10.0, mn=mn), noise=noise, options=o,
+                       seed=r.randrange(10 ** 6), tags=["optvar"] + (["noisy"] if noisy else [])))
+    return out
+
+
+PANELS["optvar"] = optvar_panel
